@@ -24,6 +24,7 @@ type drvScenario struct {
 	NextK      int    `json:"next_k"` // Next calls before the action (-1: drain to the end)
 	Action     string `json:"action"` // "close" | "cancel_close" | "drain"
 	FailAt     int    `json:"fail_at"`
+	FailMode   string `json:"fail_mode"` // "" / "err": I/O error; "short": short read, io.EOF like a truncated file
 	GoMaxProcs int    `json:"gomaxprocs"`
 	YieldFirst bool   `json:"yield_first"` // let the producer run before acting
 	Prepared   bool   `json:"prepared"`    // use a prepared statement that stays open while the observations are taken
@@ -49,6 +50,7 @@ var (
 	drvMu     sync.Mutex
 	drvPagers []*tracePager
 	drvFail   int
+	drvMode   string
 )
 
 func installDriverHook() {
@@ -66,6 +68,7 @@ func installDriverHook() {
 		drvMu.Lock()
 		if drvFail > 0 {
 			tp.failAt = tp.reads + drvFail
+			tp.failMode = drvMode
 		}
 		drvPagers = append(drvPagers, tp)
 		drvMu.Unlock()
@@ -115,6 +118,7 @@ func runDriverScenario(s drvScenario) (res drvResult) {
 	drvMu.Lock()
 	drvPagers = nil
 	drvFail = s.FailAt
+	drvMode = s.FailMode
 	drvMu.Unlock()
 	db, err := sql.Open("sqlittle", s.DB)
 	if err != nil {
